@@ -1,5 +1,6 @@
 import ApolloModel.Proofs.ParserWhole
 import ApolloModel.Proofs.ParserType10
+import ApolloModel.Proofs.ParserSel9
 /-
 C07 — Standalone type and field-set parsing consume the whole input.
 Parser model of C01 with the repaired entry points (`expect_end_of_input`).
@@ -105,5 +106,85 @@ example : (parse .type none 2 "[[A!]!]!".toList).errors = [] := by decide +kerne
 example : (parse .type none 1 "[[A]]".toList).errors ≠ [] := by decide +kernel
 example : (parse .type none 500 "[ A ,! #c\n ] , !  ".toList).errors = [] := by decide +kernel
 example : (parse .type none 0 "A!".toList).errors = [] := by decide +kernel
+
+section Selections
+/-! ### `parse_selection_set` (`selection::field_set`): the whole input is ONE field set (growth) -/
+
+/-- **Acceptance is sound** for the other standalone entry point.  `Parser::parse_selection_set` without token
+    limit, any recursion limit, any source text: if the parse ends with a tree and reports no error, then the
+    source has no lexer error and its significant tokens are — `IsFieldSet` — either a braced selection set
+    `{ Selection+ }` or, brace-less (the FieldSet form `a b { c }`), a non-empty list of selections, in both
+    cases followed by the end of input.  `Selection` is the C08 reference grammar (`Ast.tSel`): field with
+    optional alias, arguments, directives and nested selection set; `... Name Directives?` with Name ≠ `on`;
+    `... (on Name)? Directives? { Selection+ }`.
+    The `_tree` hypothesis stays until the termination of the selection grammar is proved (C01). -/
+theorem fieldset_accept_sound_tree (rl : Nat) (src : Parse.Str) (root : Elem)
+    (h : (parse .selectionSet none rl src).outcome = .tree root) (herr : (parse .selectionSet none rl src).errors = []) :
+    LexClean src ∧ ∃ (x : List Ast.Tok) (ts : List Tok) (e : Tok),
+      sig (srcToks src) = ts ++ [e] ∧ e.kind = .eof ∧ TokIs ts x ∧ IsFieldSet x :=
+  Parse.parseFieldSet_sound_tree rl src root h herr
+
+/-- the braced form, at any place inside a document: started on `{`, an error-free run of
+    `selection::selection_set` consumes exactly `{ Selection+ }` and leaves the rest of the queue untouched -/
+theorem selection_set_accept_sound (n : Nat) (s s' : PState) (t : Tok) (rest : List Tok) (w : TW s) (he : EofEnd s)
+    (ht : Toks s = t :: rest) (hk : t.kind = .lCurly) (h : (selectionSet n).run s = .ok () s') (hnd : ¬ Doomed s') :
+    ∃ (cs : List Tok) (ss : Ast.Sels), Toks s = cs ++ Toks s' ∧ NoEof cs ∧ ss ≠ Ast.Sels.nil ∧
+      TokIs (sig cs) (.p .lCurly :: Ast.tSels ss ++ [.p .rCurly]) := by
+  obtain ⟨cs, x, a, b, _, d, ss, hne, rfl⟩ := (Parse.sel_all_sound n).1 s s' t rest w he ht hk h hnd
+  exact ⟨cs, ss, a, b, hne, d⟩
+
+-- witnesses (kernel-evaluated on the model)
+example : (parse .selectionSet none 500 "a b { c }".toList).errors = [] := by decide +kernel
+example : (parse .selectionSet none 500 "{ x: a(b: 1) @d ... on T { c } ...F }".toList).errors = [] := by decide +kernel
+example : (parse .selectionSet none 500 "{ ...on }".toList).errors ≠ [] := by decide +kernel
+example : (parse .selectionSet none 500 "{ }".toList).errors ≠ [] := by decide +kernel
+
+/-- **Acceptance is sound, with no hypothesis on the outcome**: `parse_selection_set` always ends with a tree
+    (no panic: C01 `parse_no_panic`; no abort: builderE's `parse_selection_set_terminates`). -/
+theorem fieldset_accept_sound (rl : Nat) (src : Parse.Str) (herr : (parse .selectionSet none rl src).errors = []) :
+    LexClean src ∧ ∃ (x : List Ast.Tok) (ts : List Tok) (e : Tok),
+      sig (srcToks src) = ts ++ [e] ∧ e.kind = .eof ∧ TokIs ts x ∧ IsFieldSet x :=
+  Parse.parseFieldSet_sound rl src herr
+
+/-- both standalone entry points always produce a tree -/
+theorem standalone_always_tree (e : Entry) (he : e = .type ∨ e = .selectionSet) (tl : Option Nat) (rl : Nat) (src : Parse.Str) :
+    ∃ root, (parse e tl rl src).outcome = .tree root := by
+  rcases he with rfl | rfl
+  · exact Parse.parseType_tree tl rl src
+  · exact Parse.parseFieldSet_tree tl rl src
+
+end Selections
+
+section Executable
+/-! ### executable definitions (growth): per-definition lemmas for the document-level theorem -/
+
+/-- `operation::operation_definition`, from ANY state: if the run adds no error, the tokens it consumed (the
+    rest of the queue is untouched, no EOF among them) are — `IsOperation` — the tokens of a full operation
+    definition `tDefinition false (.operation ty name vars dirs sels)` (keyword, optional name, optional
+    `( $v : Type DefaultValue? Directives? … )`, directives, selection set) or of the shorthand `{ Selection+ }`;
+    the selection set is non-empty. -/
+theorem operation_definition_accept_sound (n : Nat) (s s' : PState) (w : TW s) (he : EofEnd s)
+    (h : (operationDefinition n).run s = .ok () s') (hnd : ¬ Doomed s') :
+    ∃ (cs : List Tok) (x : List Ast.Tok), Toks s = cs ++ Toks s' ∧ NoEof cs ∧ EofEnd s' ∧
+      (sig cs).map astOfV = x.map some ∧ IsOperation x :=
+  (Parse.acc_operationDefinition n).sound s s' () w he trivial h hnd
+
+/-- `fragment::fragment_definition`, from a state whose queue starts with the Name token `fragment`: if the run
+    adds no error, the consumed tokens are `tDefinition false (.fragment name tc dirs sels)` with `name ≠ on` and
+    a non-empty selection set. -/
+theorem fragment_definition_accept_sound (n : Nat) (s s' : PState) (w : TW s) (he : EofEnd s)
+    (hkw : AtFragmentKw (Toks s)) (h : (fragmentDefinition n).run s = .ok () s') (hnd : ¬ Doomed s') :
+    ∃ (cs : List Tok) (x : List Ast.Tok), Toks s = cs ++ Toks s' ∧ NoEof cs ∧ EofEnd s' ∧
+      (sig cs).map astOfV = x.map some ∧ IsFragment x :=
+  (Parse.acc_fragmentDefinition n).sound s s' () w he hkw h hnd
+
+/-- `variable::variable_definitions` started on `(`: a non-empty list `( $name : Type DefaultValue? Directives? … )` -/
+theorem variable_definitions_accept_sound (n : Nat) (s s' : PState) (w : TW s) (he : EofEnd s)
+    (hk : KindP (· == Lex.Kind.lParen) (Toks s)) (h : (variableDefinitions n).run s = .ok () s') (hnd : ¬ Doomed s') :
+    ∃ (cs : List Tok) (x : List Ast.Tok), Toks s = cs ++ Toks s' ∧ NoEof cs ∧ EofEnd s' ∧
+      (sig cs).map astOfV = x.map some ∧ ∃ vs : List Ast.VarDef, vs ≠ [] ∧ x = Ast.tVarDefs vs :=
+  (Parse.acc_variableDefinitions n).sound s s' () w he hk h hnd
+
+end Executable
 
 end Apollo.C07
